@@ -55,7 +55,7 @@ func (mon *c09MemMon) AfterStore(n *cluster.SNode, call *cluster.StoreCall) {
 		return
 	}
 	keys := c09ModelKeys(m, s.Timestamp)
-	T := len(keys)*2/3 + 1
+	T, _ := c09ModelThreshold(m, s.Timestamp)
 	mon.judged++
 	m.r.out.Evals++
 	if ok, why, _ := verifyCertificate(keys, T, s); !ok {
@@ -84,10 +84,41 @@ func c09ModelKeys(m *memRig, ts uint64) []*crypto.Key {
 	return keys
 }
 
+// c09ModelThreshold is the certificate threshold at an instant: two thirds of
+// the members plus one, where the members are the holders of the key vector AND
+// the members accepted so recently that they may not sign yet (they count from
+// their acceptance on; the kernel lets a short reference window pass first, so
+// the model counts them only after one hour, well past that window and well
+// inside the readiness period: before that hour it takes the lower of the two).
+func c09ModelThreshold(m *memRig, ts uint64) (threshold, ofKeysOnly int) {
+	base := 0
+	keys := 0
+	for _, id := range m.modelAccepted(ts) {
+		var since uint64
+		for _, rec := range m.records {
+			if rec.who == id.idx && rec.kind == "accept" && rec.ts < ts {
+				since = rec.ts
+			}
+		}
+		if id.idx >= m.c.Cfg.Nodes && since+uint64(config.KernelNodeAcceptPeriodMinimum) >= ts {
+			if since+uint64(time.Hour) < ts {
+				base++
+			}
+			continue
+		}
+		base++
+		keys++
+	}
+	return base*2/3 + 1, keys*2/3 + 1
+}
+
 func c09MemGen(rng *core.Rng, tier string, p *harness.Plan) {
 	q := memGen("C09")(rng, tier)
 	p.Params, p.Ops = q.Params, nil
 	p.Params["mem"] = 1
+	if rng.Chance(0.5) {
+		p.Params["future_accept"] = 1 // acceptances stamped ahead of the other nodes' clocks
+	}
 	if p.Params["nodes"] < 8 && rng.Chance(0.5) {
 		p.Params["nodes"] = 8 // removals need more than seven members
 	}
@@ -133,6 +164,17 @@ func c09Forge(m *memRig, op harness.Op, kinds map[string]int) {
 			return c
 		}},
 	}
+	// exactly two thirds plus one of the members that may sign, while a member accepted hours ago (not
+	// yet allowed to sign) already counts for the threshold: one signer short
+	vs = append(vs, variant{"threshold-of-signing-members-only", func(s *common.Snapshot) *crypto.CosiSignature {
+		T, K := c09ModelThreshold(m, s.Timestamp)
+		if K >= T {
+			return nil
+		}
+		m.forceK = K
+		defer func() { m.forceK = 0 }()
+		return m.certify(s, 0, -1)
+	}})
 	// certificates that are right for another instant: around every membership record
 	for _, rec := range m.records {
 		rec := rec
@@ -142,7 +184,16 @@ func c09Forge(m *memRig, op harness.Op, kinds map[string]int) {
 		}
 	}
 	tried := 0
-	for _, i := range vr.Perm(len(vs)) {
+	order := vr.Perm(len(vs))
+	if vr.Chance(0.6) {
+		order = append([]int{3}, order...) // the one-signer-short variant is only possible for some hours after an acceptance
+	}
+	done := map[int]bool{}
+	for _, i := range order {
+		if done[i] {
+			continue
+		}
+		done[i] = true
 		if tried >= 3 || m.c.Halt {
 			break
 		}
@@ -156,7 +207,8 @@ func c09Forge(m *memRig, op harness.Op, kinds map[string]int) {
 			continue // e.g. the key vector of the other instant is the same as now
 		}
 		if keys := c09ModelKeys(m, it.snap.Timestamp); len(keys) > 0 {
-			if ok, _, _ := verifyCertificate(keys, len(keys)*2/3+1, it.snap); ok {
+			T, _ := c09ModelThreshold(m, it.snap.Timestamp)
+			if ok, _, _ := verifyCertificate(keys, T, it.snap); ok {
 				// the construction happened to yield a genuine threshold certificate of the current key set
 				// (e.g. the other instant's vector is a prefix of the current one): not a forgery
 				kinds["not-a-forgery:"+v.name]++
